@@ -1,0 +1,13 @@
+//go:build verif
+
+// Contracts for package api, checked by /verif (govc). This file is
+// comment-only: it adds no code under any build tag.
+
+package api
+
+// list and info return names and version numbers only: SecretInfo cannot carry a value.
+//@ typeshape [C01 secretinfo-no-values] SecretInfo no-bytes-except Name
+//@ layout [C01 secretinfo] SecretInfo { Name string; Versions []SecretVersion; ActiveVersion SecretVersion }
+//@ layout [C18 secretvalue] SecretValue { Value []byte; Version SecretVersion }
+//@ layout [C18 putrequest] PutRequest { Name string; Value []byte }
+//@ layout [C09 getrequest] GetRequest { Name string; Version SecretVersion; UpdateIfChanged bool }
